@@ -2108,6 +2108,13 @@ func opcodeCheckMultiSig(op *ParsedOpcode, t *thread) error {
 		return errs.NewError(errs.ErrTooManyOperations, "exceeded max operation limit of %d", t.cfg.MaxOps())
 	}
 
+	// The count comes from the script: do not size the buffers by it before
+	// the stack is known to hold that many items.
+	if numPubKeys > int(t.dstack.Depth()) {
+		return errs.NewError(errs.ErrInvalidStackOperation,
+			"number of pubkeys %d exceeds stack size %d", numPubKeys, t.dstack.Depth())
+	}
+
 	pubKeys := make([][]byte, 0, numPubKeys)
 	for i := 0; i < numPubKeys; i++ {
 		pubKey, err := t.dstack.PopByteArray() //nolint:govet // ignore shadowed error
